@@ -12,7 +12,7 @@ sys.path.insert(0, HERE)
 import check  # noqa: E402
 
 META = {
-    'C01': ('bigWig round trip, per function and per hand-over: section encoder == published layout and decoder == exact filter/clip of the stored items in both byte orders, decode(encode(items)) == items (bw_enc, bw_dec); batching keeps every accepted value once, in order, under one chromosome id (bw_batch, procs, create); the serial source feeds the processors each value once with the right `next` (feed); section offsets are rebased to file positions in every mode (sec_offsets); chromosome table bytes == the list handed over, in order, with the supplied sizes (chrom_tree); header/offset data flow through the four writer bodies (mutual, hdr, write_pre, zoom_levels); R-tree layout and search (rt_layout, rt_nodes, rt_search, rt_readnode, info, cache). All unbounded, by Verus, on function text cut from /repo every run.',
+    'C01': ('bigWig round trip, per function and per hand-over: section encoder == published layout and decoder == exact filter/clip of the stored items in both byte orders, decode(encode(items)) == items (bw_enc, bw_dec); batching keeps every accepted value once, in order, under one chromosome id (bw_batch, procs, create); the serial source feeds the processors each value once with the right `next` (feed); section offsets are rebased to file positions in every mode (sec_offsets); chromosome table bytes == the list handed over, in order, with the supplied sizes (chrom_tree); header/offset data flow through the four writer bodies (mutual, hdr, write_pre, zoom_levels); R-tree layout and search (rt_layout, rt_nodes, rt_search, rt_readnode, info, cache); the whole bodies around those pieces: write_mid (mid), write_vals / write_vals_no_zoom (vals_tail), the per-chromosome pipeline hand-over and id assignment (chrom_pipe, chrom_ids), the staging buffer that carries every block to the file (tfb), constructors and default options (ctors, src_ctors), reader plumbing between open and a query (rd_plumb). All unbounded, by Verus, on function text cut from /repo every run.',
             'NOT decided: the tokio task pipeline / channel order (hand-off shims are assumed order-preserving; multi-threaded scheduling is C11, not claimed), zlib (inflate(deflate(x)) == x assumed), the iterator plumbing of `get_rtreeindex` is desugared into loops by documented structural substitutions (the itertools `chunks` contract is assumed; rt_tree), the BTreeMap/HashMap collects of the glue. The property is established per function and per hand-over, not as one theorem about the composed writer.'),
     'C02': ('bigBed round trip: validation-then-batching keeps every accepted entry once, in order, unchanged, in start-sorted batches and refuses exactly the unrepresentable ones (bb_batch, procs, create); block encoder == published layout, decoder == order-preserving filter, round-trip lemma (bb_enc, bb_dec); feeding, offsets, chromosome table, headers, autoSql text stored verbatim with the field count derived from it (feed, sec_offsets, chrom_tree, hdr, write_pre, mutual); index layout and search as C01.',
             'NOT decided: task pipeline/channels (sequentialised, R1/R2), zlib, `rest` treated as bytes (UTF-8-ness dropped).'),
@@ -26,12 +26,12 @@ META = {
             'NOT decided: float rounding (floats are uninterpreted with totality/determinism axioms: shape only), IndexList behaves as a sequence (assumed shim contract).'),
     'C07': ('bigWig zoom: per-level tiling invariant with exact bases_covered == data bases in the record span, disjoint ordered records of length <= resolution, every data base in exactly one record, batches 1..=items_per_slot, nothing pending at chromosome end, termination (bw_zoom); zoom sizes positive, sorted, deduplicated, <= 10 levels (zoom_sizes, zoom_levels); zoom block bytes == published 32-byte layout, span covers records (zoom_enc), decoder and iterator (zoom_dec, iters, query_glue); offsets (sec_offsets); initial state (create); every level is stepped exactly once per value with the real look-ahead, nothing before or after the level loop skips it (zoom_outer); the two-pass zoom writer whole (zoom_vals_whole, zoom_tail); header room (write_pre).',
             'NOT decided: f64->f32 narrowing error, value.end + size <= u32::MAX is an unchecked precondition, task pipeline.'),
-    'C08': ('bigBed zoom: tiling layer over the flushed depth segments with exact covered-base counts and min/max from the actual depth (bb_zoom, bb_sweep via procs), shared zoom encoder/decoder/levels/offsets units as C07.',
+    'C08': ('bigBed zoom: tiling layer over the flushed depth segments with exact covered-base counts and min/max from the actual depth (bb_zoom, bb_sweep via procs), shared zoom encoder/decoder/levels/offsets/whole-function units as C07; the chromosome table and the staging buffer the zoom blocks travel through (chrom_tree, chrom_rd, tfb).',
             'NOT decided: as C07.'),
-    'C09': ('well-formed file: every writer unit has `bytes == format spec` postconditions written from the published layout, sharing no code with the readers: data blocks (bw_enc, bb_enc), zoom blocks (zoom_enc), header / zoom directory / summary / data count with frame conditions (hdr, write_pre, zoom_levels), chromosome tree (chrom_tree), R-tree layout (rt_layout), section offsets (sec_offsets), cross-stage consistency of the offsets (mutual), at most items_per_slot items of one chromosome per block (bw_batch, bb_batch, bw_zoom, bb_zoom).',
+    'C09': ('well-formed file: every writer unit has `bytes == format spec` postconditions written from the published layout, sharing no code with the readers: data blocks (bw_enc, bb_enc), zoom blocks (zoom_enc), header / zoom directory / summary / data count with frame conditions (hdr, write_pre, zoom_levels), chromosome tree (chrom_tree), R-tree layout (rt_layout), section offsets (sec_offsets), cross-stage consistency of the offsets (mutual), at most items_per_slot items of one chromosome per block (bw_batch, bb_batch, bw_zoom, bb_zoom); every staged byte reaches the file once, in order (tfb); the whole writer bodies around the pieces (mid, vals_tail, zoom_vals_whole, chrom_pipe).',
             'NOT decided: zlib stream validity (libdeflater assumed). The advertised buffer is the maximum over all data and zoom blocks in both writers (chrom_pipe, zoom_tail).'),
     'C10': ('readers decode any spec-conforming bytes: block decoders proved against arithmetic decode specs with a symbolic byte order (bw_dec types 1-3, bb_dec, zoom_dec), header/zoom directory decode (info), R-tree node/item decoders for both byte orders (rt_readnode; rt_items Kani complete), node filter and search (rt_nodes, rt_search), iterators/glue/caches (iters, query_glue, cache, bw_values).',
-            'NOT decided: multi-level chromosome trees (read_chrom_tree_block), libdeflater inflate.'),
+            'Chromosome trees of any depth, both byte orders, are decoded to exactly the stored (name, id, size) rows (chrom_rd); summary block and data count read at the offsets the header names (summary_io); open/cached/reopen/into_inner plumbing and the error conversions behind the queries (rd_plumb). NOT decided: libdeflater inflate (assumed inverse of deflate); a file that is not well-formed is outside the property.'),
     'C12': ('staging buffer: sequential protocol of the real TempFileBufferWriter/TempFileBuffer methods against a ghost `written` stream; every order of whole operations delivers d0 ++ written (tfb); a consumer that arrives before the producer has published reads the cell only after waiting (the token distinguishes the cell\'s current from its eventual value).',
             'ASSUMED, not proved: each method touches shared state through single linearizable swaps, so every interleaving is equivalent to an order of whole operations; that a wait returns at all (wake-ups, deadlock freedom) is not modelled: `wait_closed` returns the value the cell holds once the producer has published.'),
     'C13': ('refusal as an IFF with no state change on Err for bigWig and bigBed process_val (bw_batch, bb_batch, procs); source-side order/refusal propagation (feed); every loop in every unit has a proved termination measure (zoom tiling, zoom-count loops, sweep, zoom_sizes: no zero resolution reaches the tiling loop; get_rtreeindex level loop incl. empty input: rt_tree); malformed lines refused on the serial and the parallel path, a chromosome that starts a second run refused (bedparse, feed, feed_par, chrom_ids); no overflow panics in the zoom level choice; hand-off channels sized for one message per chromosome (zoom_tail); absence of panics = overflow/index/assert obligations under stated preconditions.',
